@@ -340,6 +340,11 @@ func (g *Gen) oblige(st *State, kind, clauseID, desc, goal string) {
 		o.Solver = "syntactic"
 	}
 	g.obls = append(g.obls, o)
+	// a clause recorded as failing on the pinned tree (an open finding) is checked but never assumed: assumed, it would be
+	// a false fact under which the later clauses of this return (and every caller) are proved
+	if g.W.noAssume[strings.TrimPrefix(g.rootFn.Pkg.Pkg.Path(), g.W.modPath+"/")+"::"+fnName+" :: "+clauseID] {
+		return
+	}
 	g.assume(st, goal)
 }
 
